@@ -139,6 +139,7 @@ theorem handover_enabled (M : Nat) (b : St) (hs : b.sets = []) (h : b.wait ≠ n
 def moves : Choice → Bool
   | .submit => false
   | .moveLeader _ => false
+  | .closeW _ => false   -- no token moves: the worker only changes its mode
   | _ => true
 
 def Enabled (M : Nat) (s : Sys) : Prop := ∃ c, moves c = true ∧ (sysStep M s c).isSome = true
